@@ -25,10 +25,9 @@ def sdiv(numerator, denominator):
     :return: Array
     """
 
-    if np.isscalar(numerator):
-        return np.divide(numerator, denominator, out=np.zeros_like(denominator, dtype=float), where=numerator != 0)
-    else:
-        return np.divide(numerator, denominator, out=np.zeros_like(numerator, dtype=float), where=numerator != 0)
+    # The output takes the broadcast shape of the inputs, so that e.g. a constant numerator (which may itself be
+    # the zero-dimensional array returned by a nested division) can be divided by an array
+    return np.divide(numerator, denominator, out=np.zeros(np.broadcast(numerator, denominator).shape, dtype=float), where=np.not_equal(numerator, 0))
 
 
 def vector_min(*args):
